@@ -6,7 +6,7 @@
 //! (c) regression inputs of the panics found so far.
 //! The coverage-guided targets live in /verif/fuzz (thorough tier, see the `check` script).
 
-use std::collections::BTreeMap;
+use std::collections::{BTreeMap, BTreeSet};
 use std::path::{Path, PathBuf};
 use std::process::Command;
 use std::time::Instant;
@@ -452,6 +452,8 @@ pub fn exercise(dir: &Path, out_dir: &Path) -> Result<Outcome, (String, serde_js
         infos.get_translations().write_to_dir(o2).map_err(|e| e.to_string())?;
         let n = infos.get_icu_keys().count();
         let _ = infos.get_locales().count();
+        let _ = infos.get_locales_langids().count();
+        let _ = infos.build_datagen_driver();
         let _ = infos.get_namespaces().map(|i| i.count());
         let _ = infos.files_paths().len();
         Ok(n)
@@ -556,6 +558,25 @@ pub fn case(t: &mut Tape, scratch: &Scratch, budget_ms: u128, slow: &std::cell::
         };
         manifest = format!("[package]\nname = \"generated\"\nversion = \"0.1.0\"\nedition = \"2021\"\n\n{section}{body}");
         labels.push("boundary-configuration".into());
+    }
+    if t.chance(1, 10) {
+        // one locale gets a name that is odd or not a BCP-47 tag (in the manifest and as file name)
+        const ODD_LOCALES: &[&str] = &["e", "toolonglanguage", "en_US", "en--US", "123", "en-", "x", "i-klingon", "en-US-u-ca-buddhist", "EN", "zh-hant-tw", "und", "root", "é", "en-abcdefghi", "a1"];
+        let locs: Vec<String> = files.keys().map(|(_, l)| l.clone()).collect::<BTreeSet<_>>().into_iter().collect();
+        if !locs.is_empty() {
+            let old = locs[t.pick(locs.len())].clone();
+            let new = ODD_LOCALES[t.pick(ODD_LOCALES.len())].to_string();
+            if !locs.contains(&new) {
+                manifest = manifest.replace(&format!("{old:?}"), &format!("{new:?}"));
+                let keys: Vec<(Option<String>, String)> = files.keys().filter(|(_, l)| *l == old).cloned().collect();
+                for k in keys {
+                    if let Some(v) = files.remove(&k) {
+                        files.insert((k.0.clone(), new.clone()), v);
+                    }
+                }
+                labels.push("odd-locale-name".into());
+            }
+        }
     }
     let style = Style {
         format: Format::Json,
@@ -843,7 +864,73 @@ fn run_deep(ctx: &mut Ctx, scratch: &Scratch, sizes: &[usize], timeout_s: u64) {
     }
 }
 
+// ------------------------------------------------------------------------------------------
+// number and scalar spellings only the YAML / JSON5 formats have (the YAML and JSON5 harness builds)
+
+/// scalar tokens JSON cannot spell: non-finite floats, hex / octal / underscored integers, signs, bare dots, tags
+const ODD_SCALARS_YAML: &[&str] = &[".inf", "-.inf", "+.inf", ".nan", ".NaN", ".Inf", "0x1F", "0o17", "1_000", "+5", ".5", "5.", "1e999", "-1e999", "~", "!!float 3", "!!str 5", "&a 5", "*a", "2001-12-14", "0b11", "1:30", "y", "No"];
+const ODD_SCALARS_JSON5: &[&str] = &["Infinity", "-Infinity", "+Infinity", "NaN", "-NaN", "0x1F", "-0x1F", "+5", ".5", "5.", "1e999", "-1e999", "'single'", "null", "0x", "1_000", "\"a\\\nb\""];
+
+/// one odd scalar in one position of an otherwise plain file: a value, a subkey value, a range count (list and map
+/// form), a range bound inside a list, a plural form, a literal next to a reference that fixes its count with it
+pub fn fmt_case(t: &mut Tape, scratch: &Scratch) -> CaseResult {
+    let yaml = cfg!(feature = "yaml_files");
+    let pool = if yaml { ODD_SCALARS_YAML } else { ODD_SCALARS_JSON5 };
+    let tok = pool[t.pick(pool.len())];
+    let pos = t.pick(8);
+    let ty = ["", "\"f32\", ", "\"f64\", ", "\"u8\", ", "\"i64\", "][t.pick(5)];
+    // flow syntax is shared by YAML and JSON5 (quoted keys, commas), so one template serves both
+    let body = match pos {
+        0 => format!("{{\"k\": {tok}, \"o\": \"x\"}}"),
+        1 => format!("{{\"g\": {{\"s\": {tok}, \"t\": {{\"u\": {tok}}}}}, \"o\": \"x\"}}"),
+        2 => format!("{{\"r\": [{ty}[\"a\", {tok}], [\"b\"]]}}"),
+        3 => format!("{{\"r\": [{ty}{{\"count\": {tok}, \"value\": \"a\"}}, [\"b\"]]}}"),
+        4 => format!("{{\"r\": [{ty}[\"a\", 1, {tok}, \"2..\"], [\"b\"]]}}"),
+        5 => format!("{{\"p_one\": {tok}, \"p_other\": \"o {{{{ count }}}}\"}}"),
+        6 => format!("{{\"r\": [{ty}[{tok}, 1], [{tok}]]}}"),
+        _ => format!("{{\"k\": [{tok}], \"j\": [[{tok}]], \"l\": {{\"m\": [{ty}[\"a\", [{tok}]], [\"b\"]]}}}}"),
+    };
+    let dir = scratch.0.join("fmt");
+    let _ = std::fs::remove_dir_all(&dir);
+    let _ = std::fs::create_dir_all(dir.join("locales"));
+    let _ = std::fs::write(dir.join("Cargo.toml"), "[package]\nname = \"x\"\n[package.metadata.leptos-i18n]\ndefault = \"en\"\nlocales = [\"en\"]\n");
+    let ext = if yaml { ["yaml", "yml"][t.pick(2)] } else if cfg!(feature = "json5_files") { "json5" } else { "json" };
+    let _ = std::fs::write(dir.join(format!("locales/en.{ext}")), &body);
+    match exercise(&dir, &scratch.0.join("out")) {
+        Ok(o) => Ok(CaseInfo {
+            hash: hash_str(&body),
+            nontrivial: true,
+            classes: vec![format!("position={pos}"), if o.parse_ok { "accepted".into() } else { "rejected-with-error".into() }],
+            sample: Some(json!({"file": format!("locales/en.{ext}"), "content": body, "accepted": o.parse_ok, "error": o.parse_err})),
+            observations: 3,
+        }),
+        Err((sig, mut d)) => {
+            d["content"] = json!(body);
+            d["file"] = json!(format!("locales/en.{ext}"));
+            Err(fail(&sig, d))
+        }
+    }
+}
+
+const FMT_WHAT: &str = "format part (YAML and JSON5 harness builds): one scalar token that JSON cannot spell (non-finite floats, hex / octal / \
+     underscored integers, explicit signs, bare dots, overflowing exponents, YAML tags / anchors / aliases / timestamps / booleans, JSON5 \
+     single quotes) in one of 8 positions (value, nested subkey value, range count in list and map form, range bound inside a list, \
+     plural form, range branch value, nested lists) of a one-locale project, with and without a range type; run through parse_locales, \
+     the build-script API and the code generator under catch_unwind. oracle: Ok or an error with a message, never a panic. every case \
+     is non-trivial (the token reaches the value grammar); distinct = hash of the file";
+
 pub fn run(mut ctx: Ctx) -> ! {
+    if std::env::var("VERIF_C09_PART").as_deref() == Ok("formats") {
+        let scratch = Scratch::new("c09fmt");
+        if let Some(path) = ctx.replay.clone() {
+            ctx.replay_tape("l1-formats", &path, |t| fmt_case(t, &scratch));
+        } else {
+            let cases = ctx.tier.scale(1500, 20000);
+            ctx.run_tapes("l1-formats", cases, 16, |t| fmt_case(t, &scratch));
+        }
+        drop(scratch);
+        ctx.finish(FMT_WHAT, &[], 20)
+    }
     let scratch = Scratch::new("c09");
     let slow = std::cell::Cell::new(0u32);
     if let Some(path) = ctx.replay.clone() {
@@ -870,7 +957,7 @@ pub fn run(mut ctx: Ctx) -> ! {
         "(a) well-formed generated projects hit by 1-6 grammar-aware mutations (insert / delete / duplicate / transpose a delimiter \
          token, odd or multi-byte characters next to delimiters, truncation, hostile snippets, hostile range declarations and \
          bounds such as NaN / inf / overflow / type-only / no fallback, hostile `$t` arguments and counts, `$t` inside plural \
-         forms and range branches, cycles, odd or plural-shaped key names, plural forms without a base name, duplicate keys of the same and of different kinds (the replaced one holding references), explicit defaults as range branch values, mutated manifests), each run in-process \
+         forms and range branches, cycles, odd or plural-shaped key names, plural forms without a base name, duplicate keys of the same and of different kinds (the replaced one holding references), explicit defaults as range branch values, mutated manifests, locale names that are odd or not BCP-47 tags), each run in-process \
          under catch_unwind through parse_locales, TranslationsInfos::parse_at_dir + write_to_dir + get_icu_keys, and the code \
          generator; (b) deep / long single values (10 shapes x 3-4 sizes up to 64 KiB) run in child processes with the default \
          stack, exit status observed; (c) the regression inputs of earlier panics. oracle: outcome is Ok or an error with a non-empty \
